@@ -35,6 +35,7 @@ type ParserFacts struct {
 	NodeTypes map[string]*types.Named
 	Slots     []SlotStore
 	typeInfo  map[string]nodeTypeInfo
+	treeTypes map[*types.Named]bool
 }
 
 type nodeTypeInfo struct {
@@ -108,6 +109,12 @@ func BuildParserFacts(w *World) (*ParserFacts, error) {
 		if !is {
 			return "", "", false, false
 		}
+		// only fields of tree nodes (and of the parts nodes are made of) are typed positions;
+		// a plain carrier struct of the parser (a list of values on its way, an imported
+		// statement with a flag) is not part of the tree
+		if !pf.isTreeType(named) {
+			return "", "", false, false
+		}
 		return named.Obj().Name(), f.Name(), list, true
 	}
 	for _, fn := range fns {
@@ -179,6 +186,42 @@ func BuildParserFacts(w *World) (*ParserFacts, error) {
 	sort.SliceStable(pf.Slots, func(i, j int) bool { return pf.Slots[i].Instr.Pos() < pf.Slots[j].Instr.Pos() })
 	pf.computeTypeInfo()
 	return pf, nil
+}
+
+// isTreeType: the struct implements Statement, or is the type of a field (or list element of
+// a field) of such a struct (IfBranch, Else: parts of nodes).
+func (pf *ParserFacts) isTreeType(named *types.Named) bool {
+	if pf.treeTypes == nil {
+		pf.treeTypes = map[*types.Named]bool{}
+		var add func(n *types.Named)
+		add = func(n *types.Named) {
+			if pf.treeTypes[n] {
+				return
+			}
+			pf.treeTypes[n] = true
+			st, ok := n.Underlying().(*types.Struct)
+			if !ok {
+				return
+			}
+			for i := 0; i < st.NumFields(); i++ {
+				t := st.Field(i).Type()
+				if sl, ok := t.Underlying().(*types.Slice); ok {
+					t = sl.Elem()
+				}
+				if fn, ok := t.(*types.Named); ok && fn.Obj().Pkg() == n.Obj().Pkg() {
+					if _, isStruct := fn.Underlying().(*types.Struct); isStruct {
+						add(fn)
+					}
+				}
+			}
+		}
+		for _, n := range pf.NodeTypes {
+			if types.Implements(n, pf.Stmt) || types.Implements(types.NewPointer(n), pf.Stmt) {
+				add(n)
+			}
+		}
+	}
+	return pf.treeTypes[named]
 }
 
 // paramOrigins: v is a parameter or a choice (phi) among parameters, possibly wrapped.
